@@ -205,7 +205,8 @@ func mixCase(rng *rand.Rand, s string) string {
 	return string(b)
 }
 
-var c02Names = []string{"Accept", "Accept-Language", "Cookie", "X-Forwarded-For", "Via", "X-Custom", "Authorization", "Cache-Control", "If-None-Match", "Referer", "Origin", "X-A_b.c~1", "Content-Type", "Range", "Forwarded", "X-Request-Id", "Pragma"}
+var c02Names = []string{"Proxy-Status", "Upgrade-Insecure-Requests", "Connection-Id", "Keep-Alive-Hint", "Trailer-Info", "Te-Extension", "Proxy-Features", "X-Api-Key", "X-Goog-Iap-Jwt-Assertion",
+	"Accept", "Accept-Language", "Cookie", "X-Forwarded-For", "Via", "X-Custom", "Authorization", "Cache-Control", "If-None-Match", "Referer", "Origin", "X-A_b.c~1", "Content-Type", "Range", "Forwarded", "X-Request-Id", "Pragma"}
 
 var c02BodySizes = []int{0, 1, 2, 4095, 4096, 4097, 32767, 32768, 32769, 65535, 65536, 65537}
 
@@ -631,7 +632,7 @@ func c02H2(r *core.Run, md *fakes.Metadata, serverBin, agentBin string) {
 		return
 	}
 	defer server.Kill()
-	agent, err := startAgent(r, agentBin, "agent-h2", md, "http://"+addr+"/", l.Addr().String(), "b2h2", "--force-http2=true")
+	agent, err := startAgent(r, agentBin, "agent-h2", md, "http://"+addr+"/", l.Addr().String(), "b2h2", "--force-http2=true", "--debug=true")
 	if err != nil {
 		r.Broken(err.Error())
 		return
